@@ -10,6 +10,7 @@ package verifrt
 import (
 	"bytes"
 	"context"
+	"crypto/sha256"
 	"encoding/hex"
 	"encoding/json"
 	"fmt"
@@ -75,6 +76,11 @@ func Register(name string, f func()) { registry[name] = f }
 
 // Lookup returns a registered harness.
 func Lookup(name string) func() { return registry[name] }
+
+// PRIMITIVE. ExactFromHex selects the byte-exact model of common.FromHex (for harnesses whose attester
+// spellings are short literal strings) instead of the uninterpreted one (for harnesses that verify
+// signatures, where a spelling stands for a 65-byte key). Natively a no-op.
+func ExactFromHex(on bool) {}
 
 // PRIMITIVE. Tier is 0 for the quick tier and 1 for the thorough tier (selects bounds).
 func Tier() int {
@@ -623,6 +629,24 @@ func NondetAddr(name string) Addr {
 		return Addr{Str: " " + s, Valid: false, Bytes: bz}
 	}
 	return Addr{Str: string(NondetBytes(name+"_junk", 6)), Valid: false, Bytes: bz}
+}
+
+// PRIMITIVE. NondetAddrStr is an abstract account string for transactions that only compare such
+// strings and test their syntactic validity: symbolically an arbitrary string of at most 6 bytes
+// whose validity is an uninterpreted predicate of the string; natively a valid string is realised as
+// the bech32 address of sha256(bytes)[:20] (an injective realisation) and an invalid one as the
+// bytes themselves.
+func NondetAddrStr(name string) (string, bool) {
+	bz := NondetBytes(name, 6)
+	if valUint(name+"_valid") != 0 {
+		h := sha256.Sum256(append([]byte("verif-addr:"), bz...))
+		s, err := sdk.Bech32ifyAddressBytes(sdk.GetConfig().GetBech32AccountAddrPrefix(), h[:20])
+		if err != nil {
+			panic(err)
+		}
+		return s, true
+	}
+	return string(bz), false
 }
 
 // PRIMITIVE. ByteAt is s[i], or 0 when i is out of range (never panics, never forks).
